@@ -481,6 +481,9 @@ class GraphParser:
         # Process chains of dependencies as pairs: left => right.
         # Parameterization can duplicate some dependencies, so use a set.
         pairs: Set[Tuple[Optional[str], str]] = set()
+        # Pairs whose right side goes on to trigger something in the same
+        # chain (i.e. which are not only found at the end of chains).
+        mid_chain_pairs: Set[Tuple[Optional[str], str]] = set()
         for line in line_set:
             chain = []
             # "foo => bar => baz" becomes [foo, bar, baz]
@@ -510,6 +513,8 @@ class GraphParser:
 
             for i in range(0, len(chain) - 1):
                 pairs.add((chain[i], chain[i + 1]))
+                if i + 1 < len(chain) - 1:
+                    mid_chain_pairs.add((chain[i], chain[i + 1]))
 
             # Record end of chain nodes (can be multiple with &)
             self.end_of_chain_nodes.update(
@@ -524,7 +529,10 @@ class GraphParser:
         rights: Set[str] = set()
 
         for pair in sorted(pairs, key=lambda p: str(p[0])):
-            self._proc_dep_pair(pair, check_terminals, lefts, rights)
+            self._proc_dep_pair(
+                pair, check_terminals, lefts, rights,
+                mid_chain=(pair in mid_chain_pairs),
+            )
 
         self.terminals = rights.difference(lefts)
         for right in self.terminals:
@@ -568,6 +576,7 @@ class GraphParser:
         check_terminals: Dict[str, str],
         _lefts: Set[str],
         _rights: Set[str],
+        mid_chain: bool = False,
     ) -> None:
         """Process a single dependency pair 'left => right'.
 
@@ -583,6 +592,9 @@ class GraphParser:
                 'right' can't be None or "".
             terminals:
                 Nodes which are _only_ on the RH end of chains.
+            mid_chain:
+                True if 'right' is not at the end of the chain this pair
+                came from, e.g. (a, b) in "a => b => c".
         """
         left, right = pair
         # Raise error for right-hand-side OR operators.
@@ -710,14 +722,16 @@ class GraphParser:
 
             # remove '?' from expr (not needed in logical trigger evaluation)
             expr = re.sub(self.__class__._RE_OPT, '', expr)
-            self._families_all_to_all(expr, rights, n_info, family_trig_map)
+            self._families_all_to_all(
+                expr, rights, n_info, family_trig_map, mid_chain)
 
     def _families_all_to_all(
         self,
         expr: str,
         rights: List[str],
         info: List[Tuple[str, str, str, bool]],
-        family_trig_map: Dict[Tuple[str, str], Tuple[str, bool]]
+        family_trig_map: Dict[Tuple[str, str], Tuple[str, bool]],
+        mid_chain: bool = False,
     ) -> None:
         """Replace all family names with member names, for all/any semantics.
 
@@ -754,7 +768,7 @@ class GraphParser:
             else:
                 n_info += [(name, offset, trig)]
 
-        self._compute_triggers(expr, rights, n_expr, n_info)
+        self._compute_triggers(expr, rights, n_expr, n_info, mid_chain)
 
     def _set_triggers(
         self,
@@ -917,7 +931,8 @@ class GraphParser:
         orig_expr: str,
         rights: List[str],
         expr: str,
-        info: List[Tuple[str, str, str]]
+        info: List[Tuple[str, str, str]],
+        mid_chain: bool = False,
     ) -> None:
         """Store trigger info from "expr => right".
 
@@ -926,6 +941,7 @@ class GraphParser:
             rights: list of right-side nodes including qualifiers like :fail?
             expr: the associated graph expression
             info: [(name, offset, trigger-name)] for each name in expr.
+            mid_chain: is this pair from the middle of a chain?
 
         """
         trigs = []
@@ -993,12 +1009,15 @@ class GraphParser:
                     # Convert to standard output names if necessary.
                     output = TaskTrigger.standardise_name(output)
                 elif optional or (
-                    right not in self.end_of_chain_nodes
+                    mid_chain
+                    or right not in self.end_of_chain_nodes
                     or not expr
                 ):
                     # Infer "name:succeeded?" for explicit "name?"
                     # Infer "name:succeeded" for plain "name"
                     #   if not (end-of-chain and left is not None)
+                    # (NOTE end_of_chain_nodes is per graph, not per chain:
+                    # "right" may end another chain but not this one.)
                     output = TASK_OUTPUT_SUCCEEDED
                 outputs = [output]  # may be [None]
 
